@@ -123,6 +123,11 @@ def run(ck):
         return
     recs += r
     evaluate(ck, recs)
+    ck.obligations += 1
+    if len(recs) - ncorpus >= 50 and ncorpus >= 2:
+        ck.discharged += 1
+    else:
+        ck.fail_obligation("generator:universes", "only %d random universes and %d corpus universes were run" % (len(recs) - ncorpus, ncorpus))
     for u in recs[:1] + recs[ncorpus:ncorpus + 1]:
         ck.sample({k: u[k] for k in ("batch", "gh", "init", "common", "a", "b")})
     ck.extra["corpus_universes"] = ncorpus
